@@ -789,6 +789,10 @@ func checkC10(p *core.Program, r *core.Report) {
 	r.Rule("R7", "a run whose node vanished has no location: the node PathLocation returns is nil together with an error; in flows/engine and flows/runs it is dereferenced — directly, or by a callee it is handed to that invokes a method on that parameter without a nil test — only under a test of that error or of the node itself")
 	c10R7(p, r)
 
+	// ------------------------------------------------------------------ R8 a tolerated error stays tolerated
+	r.Rule("R8", "an error that was tolerated is not reported later: in the readers and the engine (flows, flows/runs, flows/engine), where an error value was tested and the failing branch carried on (a missing flow is reported to the missing-asset callback and reading continues), that same value does not reach a later `err != nil` test that returns it — merging it with a later assignment under one test turns a session restored without its flow into a Go error")
+	c10R8(p, r)
+
 	// ------------------------------------------------------------------ R6 a run whose flow is gone
 	r.Rule("R6", "a run restored without its flow has a nil Flow(): in flows/engine and flows/runs every method invoked on the result of Run.Flow() (or on the run's flow field) is controlled by a nil test of that same expression, or is listed as running only while the run executes (which starts from a node found through its flow)")
 	c10R6(p, r)
@@ -1339,4 +1343,79 @@ func c10ConstStrings(v ssa.Value) ([]string, bool) {
 		}
 	}
 	return out, true
+}
+
+// ---------------------------------------------------------------------------------------------- R8
+
+// c10R8: for every branch on `E != nil` / `E == nil` where E is a phi of error type: an incoming value V that has its
+// own, different nil test whose failing (non-nil) side can reach this branch is a stale error.
+func c10R8(p *core.Program, r *core.Report) {
+	n := 0
+	ord := map[*ssa.Function]int{}
+	for _, fn := range p.ModuleFunctions() {
+		rel := core.RelPkg(core.FuncPkgPath(fn))
+		if rel != "flows" && rel != "flows/runs" && rel != "flows/engine" {
+			continue
+		}
+		core.EachInstr(fn, false, func(_ *ssa.Function, in ssa.Instruction) {
+			iff, ok := in.(*ssa.If)
+			if !ok {
+				return
+			}
+			bo, ok := iff.Cond.(*ssa.BinOp)
+			if !ok || (bo.Op != token.NEQ && bo.Op != token.EQL) || !core.IsNilConst(bo.Y) {
+				return
+			}
+			phi, ok := bo.X.(*ssa.Phi)
+			if !ok || !isErrorType(phi.Type()) {
+				return
+			}
+			n++
+			ord[fn]++
+			var leaves []ssa.Value
+			seen := map[ssa.Value]bool{}
+			var walk func(v ssa.Value)
+			walk = func(v ssa.Value) {
+				if seen[v] {
+					return
+				}
+				seen[v] = true
+				if ph, ok := v.(*ssa.Phi); ok {
+					for _, e := range ph.Edges {
+						walk(e)
+					}
+					return
+				}
+				leaves = append(leaves, v)
+			}
+			walk(phi)
+			stale := ""
+			for _, v := range leaves {
+				if core.IsNilConst(v) || v.Referrers() == nil {
+					continue
+				}
+				for _, ref := range *v.Referrers() {
+					b2, ok := ref.(*ssa.BinOp)
+					if !ok || b2 == bo || (b2.Op != token.NEQ && b2.Op != token.EQL) || !core.IsNilConst(b2.Y) || b2.Referrers() == nil {
+						continue
+					}
+					for _, r2 := range *b2.Referrers() {
+						if2, ok := r2.(*ssa.If)
+						if !ok {
+							continue
+						}
+						failing := if2.Block().Succs[0]
+						if b2.Op == token.EQL {
+							failing = if2.Block().Succs[1]
+						}
+						if failing == iff.Block() || core.Reachable(failing, nil)[iff.Block()] {
+							stale = p.Pos(b2.Pos())
+						}
+					}
+				}
+			}
+			r.Check(stale == "", "R8", fmt.Sprintf("%s/merged-error-test#%d", core.FuncName(fn), ord[fn]), p.Pos(bo.Pos()), "no incoming error value was tested and tolerated before", "this test also sees an error that was already tested at "+stale+" and deliberately not returned there: a tolerated failure (missing asset) is turned into a Go error after all")
+		})
+	}
+	r.Count("merged_error_tests", n)
 }
